@@ -121,6 +121,27 @@ def extract(repo, config, outdir, packages=("rawdb", "vecdb"), dump=("rawdb", "v
         shutil.rmtree(tgt, ignore_errors=True)
 
 
+def ensure_fixture_facts():
+    """facts of /verif/fixtures (positive controls), cached by a hash of its sources and the driver."""
+    build_driver()
+    fx = os.path.join(VERIF, "fixtures")
+    h = hashlib.sha256()
+    _hash_tree(os.path.join(fx, "src"), h)
+    _hash_tree(os.path.join(DRIVER_DIR, "src"), h)
+    hx = h.hexdigest()
+    d = os.path.join(CACHE, "fixtures")
+    stamp = os.path.join(d, "HASH")
+    if os.path.exists(stamp) and open(stamp).read().strip() == hx and os.path.exists(os.path.join(d, "verif_fixtures.json")):
+        return d
+    if os.path.exists(d):
+        shutil.rmtree(d)
+    os.makedirs(d)
+    extract(fx, "fixtures", d, packages=("verif_fixtures",), dump=("verif_fixtures",))
+    with open(stamp, "w") as fh:
+        fh.write(hx)
+    return d
+
+
 def ensure_facts(config="all", repo=None, force=False):
     """Return (dir, info) of fresh facts for `repo` in `config`, extracting if needed."""
     repo = repo or REPO
